@@ -137,12 +137,14 @@ def describe_row(t, v):
 
 def describe_walk(t, v):
     at = v["at"]
-    lines = [f"  terminal {t['cols']}x{t['rows']}, cursor starts at row {t['r0']} column {t['c0']}"]
+    head_ = f"  terminal {t['cols']}x{t['rows']}, cursor starts at row {t['r0']} column {t['c0']}; last operations:"
+    lines = []
     for i, e in enumerate(t["steps"][:at], 1):
         lines.append(f"  {i}. {show_op(e['op'])} -> {K.text_of(e['chars'])!r}")
+    lines = lines[-7:]
     if 0 < at <= len(t["steps"]) and t["steps"][at - 1]["hasexp"]:
         lines.append(f"  dumped target state: {json.dumps(t['steps'][at - 1]['exp'])[:400]}")
-    return "\n".join(lines[-14:])
+    return "\n".join([head_] + lines)
 
 
 def describe_match(t, v):
@@ -189,7 +191,8 @@ def rows_part(rep: Report, mod, rows: list[dict], names: dict):
 # ------------------------------------------------------------------ spec -> code: walks
 def walks_part(mod, res_e, how: dict):
     geom = res_e.tagged("GEOM")
-    g = graph.from_result(res_e)
+    # (several workers print the edges in varying order: sort, so that a seed determines the run)
+    g = graph.Graph(sorted(res_e.tagged("EDGE"), key=graph.key), res_e.tagged("INIT") or None)
     if not g.edges or not geom:
         raise tlc.MachineryError("x05: the edge dump is empty")
     walks = g.walks(max_len=80)
@@ -405,7 +408,7 @@ def main(rep: Report, replay: dict | None) -> None:
                           "the vocabulary in CtlSeqs.tla violates " + res_t.violated + "\n" + res_t.error_text[:1500],
                           {"kind": "design", "spec": "MC_CtlSeqsTable", "cfg": "MC_CtlSeqsTable.cfg"})
             return
-        rows, names, how = res_t.tagged("ROW"), res_t.tagged("NAMES"), res_t.tagged("HOW")
+        rows, names, how = sorted(res_t.tagged("ROW"), key=graph.key), res_t.tagged("NAMES"), res_t.tagged("HOW")
         if len(rows) != res_t.distinct // 2 or not names or not how:
             raise tlc.MachineryError(f"x05: table dump incomplete ({len(rows)} rows, {res_t.distinct} states)")
         names, how = names[0], how[0]
@@ -452,7 +455,7 @@ def main(rep: Report, replay: dict | None) -> None:
                           {"kind": "design", "spec": "MC_CtlSeqsPat", "cfg": pat_cfg})
             return
         cov_p = require_actions(res_p, PAT_ACTIONS, "the pattern enumeration")
-        pats = res_p.tagged("PAT")
+        pats = sorted(res_p.tagged("PAT"), key=graph.key)
         if len(pats) < res_p.distinct:
             raise tlc.MachineryError(f"x05: pattern dump incomplete ({len(pats)} rows, {res_p.distinct} states)")
         diffs = pattern_rows(mod, pats)
